@@ -168,7 +168,7 @@ Qed.
 (* ---------- listing a bucket = finding in it ---------- *)
 Definition meta_of (e : smeta) : option meta :=
   match sm_integrity e with
-  | Some text => match parse_sri text with
+  | Some text => match parse_entry_sri text with
                  | Some i => Some (mkMeta (sm_key e) i (sm_time e) (sm_size e) (sm_metadata e) (sm_raw e))
                  | None => None end
   | None => None
@@ -185,10 +185,10 @@ Proof.
     unfold find_step, view, meta_of, parses in *. cbn [fst snd].
     destruct (bytes_eqb (sm_key e) key); [|reflexivity].
     destruct (sm_integrity e) as [t|]; [|reflexivity].
-    destruct (parse_sri t); [reflexivity|discriminate].
+    destruct (parse_entry_sri t); [reflexivity|discriminate].
   - rewrite IH. f_equal. unfold find_step, parses in *.
     destruct (sm_integrity e) as [t|]; [|discriminate].
-    destruct (parse_sri t); [discriminate|].
+    destruct (parse_entry_sri t); [discriminate|].
     destruct (bytes_eqb (sm_key e) key); reflexivity.
 Qed.
 
@@ -208,7 +208,7 @@ Proof.
   cbn [flat_map map]. rewrite map_app, <- IH. f_equal.
   unfold live, glive, view, meta_of. cbn [fst snd].
   destruct (sm_integrity e) as [t|]; [|reflexivity].
-  destruct (parse_sri t); reflexivity.
+  destruct (parse_entry_sri t); reflexivity.
 Qed.
 
 Lemma ls_entries_view es :
@@ -224,7 +224,7 @@ Proof.
   destruct (bytes_eqb (sm_key e) key) eqn:E; [|exact IH].
   apply bytes_eqb_eq in E.
   destruct (sm_integrity e) as [t|]; [|discriminate].
-  destruct (parse_sri t); [|exact IH].
+  destruct (parse_entry_sri t); [|exact IH].
   intros H. inversion H; subst. reflexivity.
 Qed.
 
